@@ -24,6 +24,7 @@ var Families = map[string]func(t *testing.T, seed int64, steps int) *Cluster{
 	"lifecycle": famLifecycle,
 	"notify":    famNotify,
 	"restore":   famRestore,
+	"figure8":   famFigure8,
 }
 
 // famMember: membership changes racing with elections, crashes and partitions; universe of 5.
